@@ -17,8 +17,25 @@ struct S {
   std::string name;
 };
 
+// A user pointer type that is comparable with nullptr only through its converting constructor: `p != nullptr` is
+// well-formed, but trompeloeil::is_null_comparable (which compares with a helper type that converts to nullptr_t)
+// is false for it.  The dereferencing matcher must treat it like any other nullable pointer.
+template <typename T>
+class conv_ptr {
+public:
+  conv_ptr(std::nullptr_t) noexcept : p_(nullptr) {}
+  explicit conv_ptr(T* p) noexcept : p_(p) {}
+  T& operator*() const { return *p_; }
+  friend bool operator==(const conv_ptr& a, const conv_ptr& b) noexcept { return a.p_ == b.p_; }
+  friend bool operator!=(const conv_ptr& a, const conv_ptr& b) noexcept { return a.p_ != b.p_; }
+private:
+  T* p_;
+};
+static_assert(!trompeloeil::is_null_comparable<conv_ptr<int>>::value, "premise of the conv_ptr instantiations");
+
 struct Mock {
   MAKE_MOCK1(i, void(int));
+  MAKE_MOCK1(cp, void(conv_ptr<int> const&));
   MAKE_MOCK1(p, void(int*));
   MAKE_MOCK1(s, void(std::string const&));
   MAKE_MOCK1(cs, void(char const*));
@@ -48,6 +65,8 @@ bool scalars(int x, int* px, std::unique_ptr<int>& up) {
   r &= param_matches(!!eq(1), std::ref(x));
   r &= param_matches(*eq(1), std::ref(px));
   r &= param_matches(*eq(1), std::ref(up));
+  conv_ptr<int> cp(px);
+  r &= param_matches(*eq(1), std::ref(cp));
   r &= param_matches(!*eq(1), std::ref(px));
   r &= param_matches(*!eq(1), std::ref(px));
   r &= param_matches(any_of(1), std::ref(x));
